@@ -21,7 +21,7 @@ func init() {
 			"R1: (a) a site that sets NewCNAME sets nothing else; (b) a site that sets RRType is reachable only with a success response code (constant, or the dispatcher's guard); (c) the static type of Value is the one published for the record type " +
 			"(netip.Addr for A on the true edge of Is4 and of a successful parse, for AAAA on the Is6 / not-Is4 edge of a successful parse, *DNSMX, *DNSSRV, *DNSSVCB, string for PTR/TXT, nothing otherwise). " +
 			"R2: the dispatcher looks the handler up with the very value it passes as record type, and handlers store their parameters. R3: the PTR value is the FQDN helper's result or already ends in a dot. " +
-			"R4: the parser functions have no out-of-range index. R5: the parser writes no shared memory and the handler table is written only by its initialiser (determinism). R6: every store to NetworkRule.DNSRewrite stores the return value of the parser for the rule's own value, or nil (no cache or shared object in between). R7: a parsed number is converted only to a field at least as wide as the bit size handed to strconv (out-of-range values are rejected, not truncated). A dispatcher outside the vocabulary is judged inside the vocabulary function that reaches it (its success guard may sit in the caller). R11 imports C04.R13 (the option splitter keeps every byte of the value). A handler registered for several record types is judged once per type with its type parameter being that type. R12: the NewCNAME a construction site stores is the very text that was handed to the host validator, in the shorthand and in the full form alike, so both forms of one CNAME rewrite carry the same value (imported by C09: an exception written in one form disables the rewrite written in the other).",
+			"R4: the parser functions have no out-of-range index. R5: the parser writes no shared memory and the handler table is written only by its initialiser (determinism). R6: every store to NetworkRule.DNSRewrite stores the return value of the parser for the rule's own value, or nil (no cache or shared object in between). R7: a parsed number is converted only to a field at least as wide as the bit size handed to strconv (out-of-range values are rejected, not truncated). A dispatcher outside the vocabulary is judged inside the vocabulary function that reaches it (its success guard may sit in the caller). R11 imports C04.R13 (the option splitter keeps every byte of the value). A handler registered for several record types is judged once per type with its type parameter being that type. R12: the NewCNAME a construction site stores is the very text that was handed to the host validator, in the shorthand and in the full form alike, so both forms of one CNAME rewrite carry the same value (imported by C09: an exception written in one form disables the rewrite written in the other). R13: every iteration of a loop that fills the parameter map of an SVCB/HTTPS value stores an entry or fails (the store dominates every back edge), so a made map is never left empty and equal values are equal for reflect.DeepEqual (imported by C09). R4 also covers the option splitter the value passes through on its way to the parser. R8 also: when the labels are cut off one by one with strings.Cut, the walk continues on the 'found' result, not while the rest is non-empty (which would never look at the empty label behind a final dot).",
 		Trusted:     []string{"github.com/miekg/dns constants (TypeA, ...) and dns.Fqdn; netip.Addr.Is4/Is6"},
 		Assumptions: []string{"that every malformed value is REJECTED is not decided (needs the value grammar as oracle)"},
 	})
